@@ -250,9 +250,11 @@ def rule_partial(rep: Report, rid="C01.partial") -> None:
             if n[0] == "extcall" and n[1] in RE_FUNCS:
                 # attribute the site to the function whose source line it is
                 file = None
+                meth = n[1].rsplit(".", 1)[1]
                 for fn in f.all_functions():
                     if fn.node.lineno <= (n[3] or 0) <= (fn.node.end_lineno or 0) and any(
-                            isinstance(x, ast.Call) and dotted(x.func) == n[1] and x.lineno == n[3] for x in walk_no_nested_defs(fn.node)):
+                            isinstance(x, ast.Call) and x.lineno == n[3] and (dotted(x.func) == n[1] or (isinstance(x.func, ast.Attribute) and x.func.attr == meth))
+                            for x in walk_no_nested_defs(fn.node)):
                         file = (fn.file, fn.qualname)
                         break
                 if file is None:
